@@ -138,6 +138,10 @@ Section Model.
   Definition obs_slim (m : mask) (f : form) : list A := to_slim m (acc_slim m f).
   Definition obs_native (m : mask) (f : form) : grid := to_native m (acc_native m f).
 
+  (* shape predicate of a stored array: a slim one has one entry per unmasked pixel, a native one has the mask's shape *)
+  Definition wfb (m : mask) (H W : nat) (f : form) : bool :=
+    match f with Slim s => Nat.eqb (length s) (count m) | Native n => rectb H W n end.
+
   (* the operations that produce / change an object after construction:
        HMap g   : elementwise arithmetic on the stored array (to_new_array: `arr + c`, `c - arr`, `arr * c`, `-arr`)
        HNew f   : with_new_array(raw) -- the stored array is replaced by a raw array of either form
@@ -157,6 +161,8 @@ Section Model.
     | HNative => acc_native m f
     | HSlim => acc_slim m f
     end.
+  Definition hop_ok (m : mask) (H W : nat) (o : hop) : bool :=
+    match o with HNew f' | HBuild f' _ => wfb m H W f' | _ => true end.
   (* what is read (slim, native) from the object after construction and after every operation *)
   Fixpoint run_hist (m : mask) (f : form) (ops : list hop) : list (list A * grid) :=
     (obs_slim m f, obs_native m f) :: match ops with [] => [] | o :: t => run_hist m (step m f o) t end.
@@ -185,6 +191,7 @@ End Model.
 Inductive mop := MSet (y x : nat) (b : bool) | MNew (m' : mask) | MInvert | MCopy.
 Definition mset (m : mask) (p : nat * nat) (b : bool) : mask :=
   upd m (fst p) (upd (nth (fst p) m []) (snd p) b).
+Definition mop_ok (H W : nat) (o : mop) : bool := match o with MNew m' => rectb H W m' | _ => true end.
 Definition mstep (m : mask) (o : mop) : mask :=
   match o with
   | MSet y x b => mset m (y, x) b
@@ -259,6 +266,9 @@ Definition hop1_of (o : zop) : hop1 :=
   | ZNative => HNative1
   | ZSlim => HSlim1
   end.
+(* the masks a Mask2D object holds along a history *)
+Fixpoint mstates (m : mask) (ops : list mop) : list mask :=
+  m :: match ops with [] => [] | o :: t => mstates (mstep m o) t end.
 Definition ramp (n : nat) : list Z := map (fun k => 1000 + Z.of_nat k)%Z (seq 0 n).
 Definition mobs (n : zgrid) (m : mask) :=
   (native_for_slim m, mask_slim_indexes m false, mask_slim_indexes m true, slim_from m n, native_from 0%Z m (ramp (count m))).
